@@ -33,12 +33,14 @@ theorem C07_reported_outputs_interleaved (env : Env) (cfg : Cfg) (n : Node) (h :
 theorem C07_syncTick_step (env : Env) (cfg : Cfg) (n : Node) (now : Int) (resps : List Resp) (pick : Nat)
     (ts : Int) (perm : List Tx) (rid : String) :
     stepX env cfg n (.syncTick now resps pick ts perm rid) = step env cfg n (.tick ts perm rid) ∨
-    stepX env cfg n (.syncTick now resps pick ts perm rid) = step env cfg n (.sync now resps pick) := by
-  obtain ⟨o, ho, h⟩ := stepX_shadow env cfg n (.syncTick now resps pick ts perm rid)
-  simp only [OpX.shadows, List.mem_cons, List.mem_nil_iff, or_false] at ho
-  rcases ho with rfl | rfl
-  · exact Or.inl h
-  · exact Or.inr h
+    stepX env cfg n (.syncTick now resps pick ts perm rid) = step env cfg n (.sync now resps pick) :=
+  stepX_syncTick_cases env cfg n now resps pick ts perm rid
+
+/-- a submission admitted while a round waits is the submission followed by the round -/
+theorem C16_syncSubmit_step (env : Env) (cfg : Cfg) (n : Node) (now : Int) (resps : List Resp) (pick : Nat) (tx : Tx) :
+    stepX env cfg n (.syncSubmit now resps pick tx) = run env cfg n [.submit tx, .sync now resps pick] := by
+  simp only [stepX, run, List.foldl_cons, List.foldl_nil, step, admitTx_led]
+  cases (Sync.outcomes env cfg n.led now resps)[pick]? <;> rfl
 
 /-- **C12 with interleaving**: the served chain is hash-linked at every moment -/
 theorem C12_chain_linked_interleaved (env : Env) (cfg : Cfg) (n : Node) (h : ReachableX env cfg n) :
